@@ -6,9 +6,11 @@
 // 16-bit types completely (thorough) or on the lattice (quick); the boundary lattice for 32/64
 // bits (0, 1, every single bit b, b-1, b+1, their complements, byte patterns, 2..20).
 //
-// MC_PART: 1 <bit> unary and binary + bit_cast; 2 saturation/midpoint/idiv/ipow on all 8-bit pairs;
-// 3 gcd/lcm + cmp_* (i8,i8) on all 8-bit pairs; 4 cmp_* mixed 8-bit pairs; 5 16/32-bit pairs + casts;
-// 6 64-bit pairs; 7 cmp_* over mixed widths.
+// MC_PART (a translation unit holds at most about six 65536-entry tables: the constant evaluator
+// needs 2-5 KB of compiler memory per entry): 1 <bit> unary and binary + bit_cast; 2 / 3 saturation,
+// midpoint, idiv, ipow on all i8 / u8 pairs; 4 gcd, lcm on all 8-bit pairs; 5 cmp_* (i8,i8), (i8,u8);
+// 6 cmp_* (u8,i8), 16/32-bit pairs, casts; 7 64-bit pairs, cmp_* over mixed widths; 8 (thorough
+// build only) the unary <bit> functions over all 65536 values of the 16-bit types.
 #include "mc.hpp"
 
 #include <etl/bit.hpp>
@@ -136,7 +138,7 @@ constexpr auto make_all()
 template <typename T>
 constexpr auto make_values()
 {
-    if constexpr (sizeof(T) == 1 || (sizeof(T) == 2 && thorough_tables)) {
+    if constexpr (sizeof(T) == 1 || (sizeof(T) == 2 && thorough_tables && MC_PART == 8)) {
         return make_all<T>();
     } else {
         return make_lattice<T>();
@@ -151,7 +153,7 @@ constexpr auto make_axis()
     if constexpr (sizeof(T) == 1) {
         return make_all<T>();
     } else if constexpr (thorough_tables && sizeof(T) == 4) {
-        return make_lattice<T>();
+        return make_lattice<T, 2>(); // every second bit position (plus the two highest)
     } else if constexpr (thorough_tables && sizeof(T) == 8) {
         return make_lattice<T, 3>(); // every third bit position (plus the two highest)
     } else {
@@ -465,7 +467,8 @@ void binary_numeric_b(mc::Reporter& r)
 template <typename T, typename U>
 void binary_cmp(mc::Reporter& r)
 {
-    run_all<IBinary<T, U, g_cmp_less>, IBinary<T, U, g_cmp_equal>, IBinary<T, U, g_cmp_greater_equal>>(r);
+    run_all<IBinary<T, U, g_cmp_less>, IBinary<T, U, g_cmp_equal>>(r);
+    if constexpr (sizeof(T) > 1 || sizeof(U) > 1) { run_all<IBinary<T, U, g_cmp_greater_equal>>(r); }
 }
 template <typename From>
 void casts(mc::Reporter& r)
@@ -501,15 +504,16 @@ int main(int argc, char** argv)
     m.job("bit_cast", both, bit_casts);
 #elif MC_PART == 2
     m.job("numeric-8-signed-a", both, binary_numeric_a<i8>);
-    m.job("numeric-8-unsigned-a", both, binary_numeric_a<u8>);
 #elif MC_PART == 3
+    m.job("numeric-8-unsigned-a", both, binary_numeric_a<u8>);
+#elif MC_PART == 4
     m.job("numeric-8-signed-b", both, binary_numeric_b<i8>);
     m.job("numeric-8-unsigned-b", both, binary_numeric_b<u8>);
-    m.job("cmp-8-ss", both, binary_cmp<i8, i8>);
-#elif MC_PART == 4
-    m.job("cmp-8-su", both, binary_cmp<i8, u8>);
-    m.job("cmp-8-us", both, binary_cmp<u8, i8>);
 #elif MC_PART == 5
+    m.job("cmp-8-ss", both, binary_cmp<i8, i8>);
+    m.job("cmp-8-su", both, binary_cmp<i8, u8>);
+#elif MC_PART == 6
+    m.job("cmp-8-us", both, binary_cmp<u8, i8>);
     m.job("numeric-16", both, [](mc::Reporter& r) {
         binary_numeric_a<i16>(r);
         binary_numeric_a<u16>(r);
@@ -532,14 +536,13 @@ int main(int argc, char** argv)
         casts<i64>(r);
         casts<u64>(r);
     });
-#elif MC_PART == 6
+#elif MC_PART == 7
     m.job("numeric-64", both, [](mc::Reporter& r) {
         binary_numeric_a<i64>(r);
         binary_numeric_a<u64>(r);
         binary_numeric_b<i64>(r);
         binary_numeric_b<u64>(r);
     });
-#else
     m.job("cmp-mixed", both, [](mc::Reporter& r) {
         binary_cmp<i32, u32>(r);
         binary_cmp<u32, i64>(r);
@@ -547,6 +550,8 @@ int main(int argc, char** argv)
         binary_cmp<u64, i16>(r);
         binary_cmp<i16, u64>(r);
     });
+#else
+    m.job("bits-unary-16-complete", {"thorough"}, unary_bits<u16>);
 #endif
     return m.run();
 }
